@@ -776,8 +776,271 @@ def net_jobs(tier):
             with open(path + ".tmp", "wb") as f:
                 f.write(data)
             os.replace(path + ".tmp", path)
-        accs = THOROUGH_ACCS if tier == "thorough" else [compiles.U55[i % 4], compiles.U65[i % 2]]
+        rot = ["ethos-u55-128", "ethos-u65-256", "ethos-u55-32", "ethos-u65-512", "ethos-u55-256", "ethos-u55-64"]
+        accs = THOROUGH_ACCS if tier == "thorough" else [rot[i % 6]] + ([rot[(i + 1) % 6]] if i % 2 == 0 else [])
         for acc in accs:
             jobs.append({"tflite": path, "sha": sha, "args": ["--accelerator-config", acc], "capture": False,
                          "family": "c16:" + name, "seed": "c16"})
     return jobs
+
+
+# ------------------------------------------------------------------------------------------------------------------
+# evaluation of "all listed constraints hold" on the source operator
+def eval_listed_real(path, opcode):
+    """reads the source model with Vela's reader and calls every constraint function the report lists for the
+    operator (semantic and supported-operator ones): [(sentence, True/False/'raises X', function name)], op name"""
+    from ethosu.vela import model_reader
+    from ethosu.vela.operation import Op
+    from ethosu.vela.tflite_mapping import optype_to_builtintype
+    import warnings
+    with contextlib.redirect_stdout(io.StringIO()):
+        nng, _ = model_reader.read_model(path, model_reader.ModelReaderOptions())
+    lists, supported = live_lists()
+    for sg in nng.subgraphs:
+        for op in sg.get_all_ops():
+            if op.type in (Op.Const, Op.Placeholder, Op.SubgraphInput):
+                continue
+            if optype_to_builtintype(op.type) != opcode:
+                continue
+            sgc, ssc, ugc, usc = lists[op.type]
+            out = []
+            # report order (generic of both checkers, then specific); `order` is the position in which the drivers
+            # evaluate: semantic generic, semantic specific, supported generic, supported specific
+            order = {id(c): k for k, c in enumerate(sgc + ssc + ugc + usc)}
+            for c in sgc + ugc + ssc + usc:
+                try:
+                    with contextlib.redirect_stdout(io.StringIO()), warnings.catch_warnings():
+                        warnings.simplefilter("ignore")
+                        v = bool(c(op)[0])
+                except Exception as ex:
+                    v = "raises %s" % type(ex).__name__
+                out.append((c.__doc__, v, c.__name__, order[id(c)]))
+            return out, op.type in supported, [t.name for t in op.outputs]
+    return None, False, None
+
+
+def squash_ws(s):
+    return re.sub(r"\s+", " ", s).strip()
+
+
+def op_facts(sg, op):
+    """plain facts of a source operator from the flatbuffer summary (independent of Vela's reader)"""
+    T = sg["tensors"]
+    code = op["opcode"]
+    o = op["options"] or {}
+    ins = [T[i] if i >= 0 else None for i in op["inputs"]]
+    outs = [T[i] for i in op["outputs"]]
+    f = dict(code=code, ofm=outs[0], opts=o, ifm=None, ifm2=None, weights=None, bias=None)
+    if code in ("CONV_2D", "DEPTHWISE_CONV_2D", "FULLY_CONNECTED"):
+        f["ifm"], f["weights"] = ins[0], ins[1]
+        f["bias"] = ins[2] if len(ins) > 2 else None
+    elif code == "TRANSPOSE_CONV":
+        f["ifm"], f["weights"] = ins[2], ins[1]
+        f["bias"] = ins[3] if len(ins) > 3 else None
+    elif code in ("ADD", "SUB", "MUL", "MINIMUM", "MAXIMUM"):
+        f["ifm"], f["ifm2"] = ins[0], ins[1]
+    else:
+        f["ifm"] = ins[0] if ins else None
+    f["ins"] = ins
+    if f["weights"] is not None and code != "FULLY_CONNECTED":
+        ws = f["weights"]["shape"]
+        f["kh"], f["kw"] = ws[1], ws[2]
+    if code in ("MAX_POOL_2D", "AVERAGE_POOL_2D"):
+        f["kh"], f["kw"] = o.get("FilterHeight"), o.get("FilterWidth")
+    f["sh"], f["sw"] = o.get("StrideH"), o.get("StrideW")
+    f["dh"], f["dw"] = o.get("DilationHFactor", 1), o.get("DilationWFactor", 1)
+    f["padding"] = {0: "SAME", 1: "VALID"}.get(o.get("Padding"))
+    return f
+
+
+def tensor_values(summary, t):
+    dt = {"int8": np.int8, "uint8": np.uint8, "int16": np.int16, "int32": np.int32, "int64": np.int64}.get(t["type"])
+    if dt is None or not t["data_len"]:
+        return None
+    return np.frombuffer(summary["_bufs"][t["buffer"]], dtype=dt).reshape(t["shape"] if t["shape"] else ())
+
+
+def doc_oracle(sentence, f, summary):
+    """independent reading of a sentence of the generated report on the operator facts: True / False, or None when no
+    independent numeric reading is claimed (the real constraint function's answer is used then)"""
+    s = squash_ws(sentence)
+    rng2 = lambda lo, hi, x: lo <= x <= hi
+    m = re.fullmatch(r"Tensor dimensions must be in the range \[(\d+), (\d+)\]", s)
+    if m:
+        lo, hi = int(m.group(1)), int(m.group(2))
+        return all(rng2(lo, hi, d) for t in (f["ifm"], f["ifm2"], f["weights"], f["ofm"]) if t is not None for d in t["shape"])
+    m = re.fullmatch(r"Stride values for both width and height must be (?:in the range \[(\d+), (\d+)\]|between (\d+) and (\d+))", s)
+    if m:
+        lo, hi = [int(x) for x in m.groups() if x is not None]
+        return rng2(lo, hi, f["sw"]) and rng2(lo, hi, f["sh"])
+    m = re.fullmatch(r"Dilated kernel height must be in the range \[(\d+), (\d+)\]", s)
+    if m:
+        return rng2(int(m.group(1)), int(m.group(2)), (f["kh"] - 1) * f["dh"] + 1)
+    m = re.fullmatch(r"Product of dilated kernel width and height must be in the range \[(\d+), (\d+)\]", s)
+    if m:
+        return rng2(int(m.group(1)), int(m.group(2)), ((f["kh"] - 1) * f["dh"] + 1) * ((f["kw"] - 1) * f["dw"] + 1))
+    m = re.fullmatch(r"The sum of the weights cannot exceed (\d+)", s)
+    if m:
+        w = tensor_values(summary, f["weights"])
+        if w is None:
+            return None
+        zp = (f["weights"]["quant"] or {}).get("zero_point") or [0]
+        if len(zp) != 1:
+            zp = [0] if all(z == 0 for z in zp) else None
+        if zp is None:
+            return None
+        a = np.abs(w.astype(np.int64) - zp[0])
+        # per output channel: CONV_2D / TRANSPOSE_CONV weights are OHWI, DEPTHWISE 1HWC
+        per = a.sum(axis=(1, 2, 3)) if f["code"] != "DEPTHWISE_CONV_2D" else a.sum(axis=(0, 1, 2))
+        return int(per.max()) <= int(m.group(1))
+    m = re.fullmatch(r"Optional Bias tensor values must fit within (\d+)-bits", s)
+    if m:
+        b = f["bias"]
+        if b is None or b["type"] != "int64":
+            return True
+        v = tensor_values(summary, b)
+        if v is None:
+            return True
+        n = int(m.group(1))
+        return all(-(1 << (n - 1)) <= int(x) < (1 << (n - 1)) for x in v.flatten())
+    m = re.fullmatch(r"IFM Tensor batch size must be (\d+)", s)
+    if m:
+        return all((t["shape"][0] if len(t["shape"]) >= 4 else 1) == int(m.group(1)) for t in (f["ifm"], f["ifm2"]) if t is not None)
+    if s == "For depth multipliers > 1, IFM channels must be 1 and OFM channels must be equal to the depth multiplier":
+        dm = f["opts"].get("DepthMultiplier", 1)
+        return dm <= 1 or (f["ifm"]["shape"][3] == 1 and f["ofm"]["shape"][3] == dm)
+    m = re.fullmatch(r"(VALID padding: )?Kernel filter height must be in the range \[(\d+), (\d+)\]", s)
+    if m:
+        return (m.group(1) is not None and f["padding"] != "VALID") or rng2(int(m.group(2)), int(m.group(3)), f["kh"])
+    m = re.fullmatch(r"(VALID padding: )?Product of kernel filter width and height must be in the range \[(\d+), (\d+)\]", s)
+    if m:
+        return (m.group(1) is not None and f["padding"] != "VALID") or rng2(int(m.group(2)), int(m.group(3)), f["kh"] * f["kw"])
+    m = re.fullmatch(r"Kernel filter values for both width and height must be in the range \[(\d+), (\d+)\]", s)
+    if m:
+        return rng2(int(m.group(1)), int(m.group(2)), f["kw"]) and rng2(int(m.group(1)), int(m.group(2)), f["kh"])
+    if s.startswith("Stride values for width and height must match one of the following criteria: Stride values WxH must be 1x1 or 2x2 "
+                    "Stride WxH 2x1 supported if ifm height and kernel height = 1"):
+        sw, sh = f["sw"], f["sh"]
+        return (sw, sh) in ((1, 1), (2, 2)) or ((sw, sh) == (2, 1) and f["ifm"]["shape"][1] == 1 and f["kh"] == 1)
+    if s == "SAME padding: OFM dimensions must equal IFM dimensions multiplied by stride":
+        return f["padding"] != "SAME" or (f["ofm"]["shape"][1] == f["ifm"]["shape"][1] * f["sh"] and f["ofm"]["shape"][2] == f["ifm"]["shape"][2] * f["sw"])
+    m = re.fullmatch(r"Strides must fulfil the following criteria: - Stride h must be between (\d+) and (\d+) when ofm height is greater than 1 "
+                     r"- Stride w must be between (\d+) and (\d+) when ofm height is greater than 1 or stride w must be divisible by 2 or 3 and "
+                     r"ifm width must be divisible by stride_w/2 or stride_w/3", s)
+    if m:
+        a, b, c, d = (int(x) for x in m.groups())
+        oh, ow, iw, sw, sh = f["ofm"]["shape"][1], f["ofm"]["shape"][2], f["ifm"]["shape"][2], f["sw"], f["sh"]
+        hok = oh <= 1 or rng2(a, b, sh)
+        alt = sw >= 1 and ((sw % 2 == 0 and iw % (sw // 2) == 0) or (sw % 3 == 0 and iw % (sw // 3) == 0))
+        # the condition of the second item is read as "OFM width greater than 1" (reading most favourable to the code)
+        wok = ow <= 1 or rng2(c, d, sw) or alt
+        return hok and wok
+    m = re.fullmatch(r"Stride width must be greater than or equal to (\d+)\. For stride width greater than (\d+), valid padding needs to be used\.", s)
+    if m:
+        return f["sw"] >= int(m.group(1)) and (f["sw"] <= int(m.group(2)) or f["padding"] == "VALID")
+    if s.startswith("Product of reduced axes must be no greater than:"):
+        nums = [int(x) for x in re.findall(r"- (\d+) for", s)]
+        ax = tensor_values(summary, f["ins"][1])
+        if ax is None or len(nums) != 3:
+            return None
+        shape = f["ifm"]["shape"]
+        prod = 1
+        for a in np.atleast_1d(ax).tolist():
+            prod *= shape[a]
+        bound = {"int8": nums[0], "uint8": nums[1], "int16": nums[2]}.get(f["ifm"]["type"])
+        return None if bound is None else prod <= bound
+    m = re.fullmatch(r"If (Width|Depth) axis is reduced its shape must be no greater than (\d+)\.", s)
+    if m:
+        ax = tensor_values(summary, f["ins"][1])
+        if ax is None:
+            return None
+        shape = f["ifm"]["shape"]
+        axes = [a % len(shape) for a in np.atleast_1d(ax).tolist()]
+        idx = (len(shape) - 1) if m.group(1) == "Depth" else (1 if len(shape) < 4 else 2)
+        return idx not in axes or shape[idx] <= int(m.group(2))
+    m = re.fullmatch(r"IFM depth must be no greater than (\d+)", s)
+    if m:
+        return f["ifm"]["shape"][-1] <= int(m.group(1))
+    return None
+
+
+def analyse(result, name, opcode):
+    """one compiled boundary network -> dict(verdict fields) ; never raises for a well-formed result"""
+    import c11
+    path = result["job"]["tflite"]
+    src = tflsum.summarise(path)
+    s0 = src["subgraphs"][0]
+    tgt = [i for i, o in enumerate(s0["operators"]) if o["opcode"] == opcode]
+    info = dict(net=name, opcode=opcode, accelerator=result["job"]["args"][1], status=result["status"])
+    if not tgt:
+        info["error"] = "source network has no %s" % opcode
+        return info
+    ti = tgt[0]
+    listed = report_lines_for(opcode)
+    info["in_report"] = listed is not None
+    real, type_supported, _ = eval_listed_real(path, opcode)
+    facts = op_facts(s0, s0["operators"][ti])
+    rows = []
+    if listed is not None and real is not None:
+        docs_real = [d for d, _, _, _ in real]
+        if [squash_ws(x) for x in docs_real] != [squash_ws(x) for x in listed]:
+            info["listed_mismatch"] = True   # reported by the report check
+        for d, v, fn, k in real:
+            try:
+                dv = doc_oracle(d, facts, src)
+            except Exception as ex:  # an oracle that cannot be evaluated makes no claim
+                dv = None
+            rows.append(dict(fn=fn, real=v, doc=dv, order=k))
+    info["constraints"] = [r for r in rows if r["real"] is not True or r["doc"] is False]
+    # what the drivers do: evaluate in their order and stop at the first constraint that does not answer True
+    first = next((r for r in sorted(rows, key=lambda r: r["order"]) if r["real"] is not True), None)
+    raises = [first] if first is not None and isinstance(first["real"], str) else []
+    for r in rows:   # an exception after the first False is never reached
+        if isinstance(r["real"], str) and r is not first:
+            r["real"] = None
+    info["real_all"] = (first is None if not raises else None) if listed is not None else False
+    info["doc_all"] = all((r["doc"] if r["doc"] is not None else r["real"] in (True, None)) for r in rows) if listed is not None else False
+    info["failing_real"] = [r["fn"] for r in rows if r["real"] is False]
+    info["failing_doc"] = [r["fn"] for r in rows if r["doc"] is False]
+    info["raising"] = [(r["fn"], r["real"]) for r in raises]
+    if result["status"] != "ok":
+        info["placement"] = "none"
+        info["crash"] = "%s at %s" % (result.get("exception", "exit code %s" % result.get("exit_code")), result.get("crash_site"))
+        return info
+    outp = compiles.artefact(result)
+    out = tflsum.summarise(outp)
+    o0 = out["subgraphs"][0]
+    psi, phi = c11.witness(s0, o0)
+    on_cpu = [i for i, j in phi.items() if j == ti]
+    has_npu = any(o["opcode"] == "CUSTOM" and o["custom_code"] == "ethos-u" for o in o0["operators"])
+    if on_cpu:
+        info["placement"] = "cpu"
+        i = on_cpu[0]
+        o, s = o0["operators"][i], s0["operators"][ti]
+        why = None
+        if c11.op_sig(o) != c11.op_sig(s):
+            why = "opcode/version/options differ"
+        for kind in ("inputs", "outputs"):
+            if why:
+                break
+            if len(o[kind]) != len(s[kind]):
+                why = "number of %s differs" % kind
+                break
+            for a, b in zip(o[kind], s[kind]):
+                if a < 0 or b < 0:
+                    if not (a < 0 and b < 0):
+                        why = "optional %s differs" % kind
+                    continue
+                ta, tb = o0["tensors"][a], s0["tensors"][b]
+                if c11.tens_sig(ta) != c11.tens_sig(tb) or (ta["data_len"] and ta["data_sha"] != tb["data_sha"]) or \
+                        (not ta["data_len"] and psi.get(a) != b):
+                    why = "%s tensor %s differs from the source (name/shape/type/quantisation/data or wiring)" % (kind[:-1], ta["name"])
+        info["cpu_changed"] = why
+    elif any(o["opcode"] == opcode for o in o0["operators"]):
+        info["placement"] = "cpu"
+        info["cpu_changed"] = "an operator %s is present in the output but does not match the source operator" % opcode
+    elif has_npu:
+        info["placement"] = "npu"
+    else:
+        info["placement"] = "removed"
+    return info
